@@ -93,7 +93,8 @@ def cases(shard, rnd):
                              'noarg' if k < 0.5 else 'assign-on'
                              if k < 0.58 else 'assign-off' if k < 0.66
                              else 'truthy' if k < 0.74 else 'falsy'
-                             if k < 0.8 else 'probe')
+                             if k < 0.8 else 'fail' if k < 0.88 else
+                             'greeting' if k < 0.94 else 'probe')
             yield {'t': 'toggle', 'steps': steps,
                    'probes': [rnd.choice([200, 40000, 65535, 3000000000,
                                           4294967295, -5, 2**40])
@@ -321,6 +322,27 @@ def _toggle(case, rec, encode):
         elif step == 'assign-off':
             encode.DEPRECATED_RABBITMQ_SUPPORT = False
             shadow = False
+        elif step == 'fail':
+            # an encode that is refused, in as many different ways as the
+            # encoder can refuse (each leaves through another except path);
+            # the switch is as it was
+            import datetime as _dt
+            import decimal as _dc
+            deep = cur = {}
+            for _ in range(1200):
+                cur['n'] = {}
+                cur = cur['n']
+            bad = [{'t': _dt.datetime(1960, 1, 1)}, {'d': _dc.Decimal(2**40)},
+                   {1: 2}, {'k': object()}, deep, {'k': 2**70},
+                   {'d': _dc.Decimal('NaN')}, {'a': [1, {'b': (1,)}]},
+                   {'k': 1, 2: 'mixed-keys'}, {'s': '\ud800'},
+                   {'n': {'deep': {'t': _dt.datetime(9999, 12, 31)}}}]
+            call(encode.field_table, bad[i % len(bad)])
+            call(encode.field_array, [bad[(i + 3) % len(bad)]])
+        elif step == 'greeting':
+            # the peer's greeting (any broker product / version) is decoded;
+            # the switch is the application's, not the peer's
+            common.decode_realistic(common.RND, 1, 'Connection.Start')
         rec.seen('toggle_forms', step)
         n = case['probes'][i]
         if not _check_top(n, shadow, rec,
